@@ -33,6 +33,10 @@ Python semantics notes (stated once, relied upon below):
    so None is modelled as []).
  * `ref_id in cert_ids` with ref_id None is False for the value lists produced
    by cryptography (they never contain None).
+ * A match_id() result used for its truth value (`not authn_ipaddrid`): None and
+   False are falsy, a matched result is the reference itself; only the IP and DNS
+   results may be used that way (their references are truthy whenever matched),
+   the translator refuses it for any other value.
  * `is None` / `is False` are identity tests: a match_id() result is Absent iff
    it `is None`, Mismatch iff it `is False`, anything else (the reference value
    itself, even an empty string) is Matched.
@@ -118,7 +122,7 @@ def single_assign(stmt, target):
 class Expr(object):
     ''' Translates Python expressions used for their truth value into Coq
     boolean terms.  `env`: dotted name -> (coq term, type) with type one of
-    bool | optbool | optid | id | obj | mres | list. '''
+    bool | optbool | optid | id | obj | mres | mresT | list. '''
 
     def __init__(self, env, calls=None):
         self.env = env
@@ -159,6 +163,11 @@ class Expr(object):
             return 'true'
         if typ == 'list':
             return '(nonempty %s)' % term
+        if typ == 'mresT':
+            # a match_id() result used for its truth value: None and False are falsy; a Matched result is the
+            # reference value itself, which for this variable is always truthy (an ipaddress object, or the
+            # non-empty DNS name -- peer_dnsid is only ever matched when it is a non-empty string)
+            return '(is_matched %s)' % term
         _fail(node, 'value of type %s used for its truth value' % typ)
 
     def compare(self, node):
@@ -172,12 +181,12 @@ class Expr(object):
             if is_const(right, None):
                 if typ in ('optbool', 'optid'):
                     res = '(negb (is_some %s))' % term
-                elif typ == 'mres':
+                elif typ in ('mres', 'mresT'):
                     res = '(is_absent %s)' % term
                 else:
                     _fail(node, '`is None` on type %s' % typ)
             elif is_const(right, False):
-                if typ != 'mres':
+                if typ not in ('mres', 'mresT'):
                     _fail(node, '`is False` on type %s' % typ)
                 res = '(is_mismatch %s)' % term
             else:
@@ -590,8 +599,8 @@ def tr_merge_session_params(tree):
     env = {
         'peer_ipaddrid': ('peer_ipaddrid', 'obj'),
         'peer_dnsid': ('peer_dnsid', 'optid'),
-        'authn_ipaddrid': ('authn_ipaddrid', 'mres'),
-        'authn_dnsid': ('authn_dnsid', 'mres'),
+        'authn_ipaddrid': ('authn_ipaddrid', 'mresT'),
+        'authn_dnsid': ('authn_dnsid', 'mresT'),
         'authn_nodeid': ('authn_nodeid', 'mres'),
         'self._config.require_host_authn': ('require_host', 'bool'),
         'self._config.require_node_authn': ('require_node', 'bool'),
@@ -635,6 +644,7 @@ Definition id := N.
 Inductive mres : Set := Matched | Mismatch | Absent.
 Definition is_mismatch (m : mres) : bool := match m with Mismatch => true | _ => false end.  (* m is False *)
 Definition is_absent (m : mres) : bool := match m with Absent => true | _ => false end.      (* m is None  *)
+Definition is_matched (m : mres) : bool := match m with Matched => true | _ => false end.   (* bool(m), for a truthy reference *)
 Definition is_some {A : Type} (o : option A) : bool := match o with Some _ => true | None => false end.
 Definition nonempty {A : Type} (l : list A) : bool := match l with [] => false | _ :: _ => true end.
 (* ref_id in cert_ids   (None is never a member) *)
